@@ -94,6 +94,7 @@ type Node struct {
 	// scripting knobs
 	DisconnectAtMsg   int  // close the FIRST connection when its n-th message arrives (0 = never)
 	LoseFirstN        int  // DisconnectAtMsg / CloseAfterVersion apply to the first n connections instead of the first only (0 = 1)
+	VersionTwice      bool // on the first connection(s) the node answers the service's version with its own version message twice (and no verack)
 	CloseAfterVersion bool // the FIRST connection is lost in the middle of the handshake: the node sends its version message and never a verack
 	IgnoreStop        bool // getheaders answers do not end at the stop hash ("all that remain or at most Cap")
 	SilentFirst       bool // the FIRST connection never answers getheaders; later ones do
@@ -432,6 +433,7 @@ func (c *Conn) loop() {
 		n.mu.Lock()
 		discAt, stallAfter, silent := n.DisconnectAtMsg, n.StallAfterMsg, n.Silent || (n.SilentFirst && first)
 		halfHs := n.CloseAfterVersion && early
+		twice := n.VersionTwice && early
 		n.mu.Unlock()
 		if early && discAt > 0 && cnt >= discAt {
 			c.Close(fmt.Sprintf("scripted disconnect at message %d", cnt))
@@ -449,6 +451,12 @@ func (c *Conn) loop() {
 			if halfHs {
 				c.Close("scripted: connection lost after the node's version message, before its verack")
 				return
+			}
+			if twice && !c.dialed {
+				if err := c.write(c.versionMsg(), "second version message instead of a verack"); err != nil {
+					return
+				}
+				continue
 			}
 			if err := c.write(wire.NewMsgVerAck(), ""); err != nil {
 				return
